@@ -59,6 +59,9 @@ def build_date_delta_with_cast_interval(
 def datetype_handler(args: list[exp.Expr], dialect: DialectType) -> exp.Expr:
     from sqlglot.dialects.dialect import Dialect
 
+    if len(args) != 3:
+        return exp.Anonymous(this="DATETYPE", expressions=args)
+
     year, month, day = args
 
     if all(isinstance(arg, exp.Literal) and arg.is_int for arg in (year, month, day)):
